@@ -131,9 +131,9 @@ static inline int *vs_trymove_xvalue(int *v)
 /* then(): the new continuation object (make_shared<Continuation>): known by the index it will have in the vector */
 size_t g_new_req; size_t g_pushed;
 static inline size_t vs_new_req(void) { return g_new_req; }
-static inline void vs_req_push(struct vs_reqvec *v, const size_t *req)
+static inline void vs_req_push(struct vs_reqvec *v, size_t req)
 {
-    __CPROVER_assert(*req == g_new_req, "C11: then() remembers the continuation it created");
+    __CPROVER_assert(req == g_new_req, "C11: then() remembers the continuation it created");
     if (v->n < REQ_MAX + 2) v->n++;
     if (g_pushed < 4) g_pushed++;
 }
@@ -179,6 +179,8 @@ STUBS = {
     'operator=|std::atomic<Pistache::Async::State>': {'expr': '(($0) = ($1))'},
     'operator=|std::__exception_ptr::exception_ptr': {'expr': '(($0) = ($1))'},
     'make_exception_ptr': 'vs_make_eptr',
+    'Pistache::Async::Private::CoreT::value': {'expr': '(*vs_core_value($this))', 'throws_int': True},
+    'operator()|Pistache::Async::VerifInst::AddOne': {'expr': 'vs_user_resolve($1)', 'throws_int': True},
     'field:Pistache::Async::Private::InternalRethrow::exc': 'g_rethrown_exc',
     'static_pointer_cast': {'expr': '($0)'},
     RV + '::push_back': 'vs_req_push', 'forward': {'expr': '($0)'}, 'move': {'expr': '($0)'},
@@ -195,7 +197,7 @@ GUARDED_STUBS = {'struct vs_ulock': 'vs_ulock_dtor'}
 THROWING = ['vs_req_resolve', 'vs_req_reject', 'vs_core_construct', 'vs_do_resolve', 'vs_do_reject', 'vs_user_resolve', 'vs_core_value']
 ALWAYS_REPLACE = []
 OPAQUE = []
-RECORDS = ['Pistache::Async::Private::Request', 'Pistache::Async::Private::Continuable<int>', 'Pistache::Async::Promise<int>', 'Pistache::Async::PromiseBase', 'Pistache::Async::Private::Throw', 'Pistache::Async::Private::Core', 'Pistache::Async::Resolver', 'Pistache::Async::Rejection', 'Pistache::Async::Impl::All::Data', 'Pistache::Async::Impl::Any::Data']
+RECORDS = ['Pistache::Async::VerifInst::AddOne', 'Pistache::Async::Private::impl::Continuation<int, Pistache::Async::VerifInst::AddOne, Pistache::Async::Private::Throw, int (int)>', 'Pistache::Async::Private::Request', 'Pistache::Async::Private::Continuable<int>', 'Pistache::Async::Promise<int>', 'Pistache::Async::PromiseBase', 'Pistache::Async::Private::Throw', 'Pistache::Async::Private::Core', 'Pistache::Async::Resolver', 'Pistache::Async::Rejection', 'Pistache::Async::Impl::All::Data', 'Pistache::Async::Impl::Any::Data']
 ENUMS = ['Pistache::Async::State']
 EXCEPTIONS = {'Pistache::Async::Private::InternalRethrow': 'VS_EXC_RETHROW', 'Pistache::Async::Error': 'VS_EXC_RUNTIME_ERROR', 'Pistache::Async::BadType': 'VS_EXC_RUNTIME_ERROR'}
 CATCH_TEST = {'Pistache::Async::Private::InternalRethrow': '$ == VS_EXC_RETHROW'}
@@ -208,7 +210,7 @@ DEFAULT_RULE = True
 OPAQUE_UNKNOWN = True
 OPAQUE_ANY = True
 DEVIRT = {}
-for _f in ('Continuable_int_resolve', 'Continuable_int_reject', 'Promise_int_then_AddOne', 'Resolver_call_tuple', 'Resolver_call_any', 'Rejection_call_eptr', 'Rejection_call_error', 'Resolver_call_int', 'Resolver_call_void', 'Continuable_int_reject', 'Continuable_int_resolve', 'Promise_int_then'):
+for _f in ('Continuation_AddOne_finishResolve', 'Continuation_AddOne_doResolve', 'Continuation_AddOne_doReject', 'Promise_int_isFulfilled', 'Promise_int_isRejected', 'Continuable_int_resolve', 'Continuable_int_reject', 'Promise_int_then_AddOne', 'Resolver_call_tuple', 'Resolver_call_any', 'Rejection_call_eptr', 'Rejection_call_error', 'Resolver_call_int', 'Resolver_call_void', 'Continuable_int_reject', 'Continuable_int_resolve', 'Promise_int_then'):
     DEVIRT[(_f, 'reject')] = 'vs_req_reject'
     DEVIRT[(_f, 'resolve')] = 'vs_req_resolve'
     DEVIRT[(_f, 'isVoid')] = 'vs_core_isvoid'
@@ -371,6 +373,76 @@ FUNCTIONS += [
         # Async::Throw forwards exactly the exception it was given
         ensures vs_exc == VS_EXC_RETHROW && g_rethrown_exc == exc"""},
 ]
+
+PROM = 'struct Pistache_Async_Promise_int_'
+FUNCTIONS += [
+    {'q': 'Pistache::Async::Promise::isFulfilled', 'class_targ': 'int', 'c': 'Promise_int_isFulfilled'},
+    {'q': 'Pistache::Async::Promise::isRejected', 'class_targ': 'int', 'c': 'Promise_int_isRejected'},
+    {'q': 'Pistache::Async::Promise::Promise', 'sig_exact': 'void ()', 'class_targ': 'int', 'c': 'Promise_int_ctor'},
+    {'q': 'Pistache::Async::Resolver::Resolver', 'sig': 'const std::shared_ptr<Private::Core> &', 'c': 'Resolver_ctor'},
+    {'q': 'Pistache::Async::Rejection::Rejection', 'sig': 'const std::shared_ptr<Private::Core> &', 'c': 'Rejection_ctor'},
+    {'q': 'Pistache::Async::Promise::then', 'sig': 'Pistache::Async::VerifInst::AddOne, Pistache::Async::Private::Throw', 'c': 'Promise_int_then_AddOne',
+     'stubs': {'make_shared': {'expr': 'vs_new_req()'}, 'ctor:std::shared_ptr<Pistache::Async::Private::Request>/1': {'expr': '($0)'}},
+     'types': {'auto': PROM, 'shared_ptr<_NonArray<Pistache::Async::Private::Continuation<int, Pistache::Async::VerifInst::AddOne, Pistache::Async::Private::Throw, Pistache::Async::VerifInst::AddOne>>>': 'size_t'},
+     'contract': """
+        requires FRESH(this, sizeof(*this)) && FRESH(this->core_, sizeof(*this->core_)) && CORE_OK(this->core_) && g_exp_core == this->core_ && g_exp_exc == this->core_->exc
+        requires GHOST0 && g_pushed == 0 && g_new_req == this->core_->requests.n && g_k == g_new_req
+        assigns """ + GH + """, g_pushed, vs_tmp_core, this->core_->mtx, this->core_->requests
+        # C11: a continuation attached AFTER settlement is handed the outcome at once -- fulfilled: its fulfilment side, rejected: its
+        # rejection side, pending: nothing -- exactly once, and never the other side
+        ensures this->core_->state == ST_FULFILLED ==> (g_k_res == 1 && g_res_calls == 1 && g_rej_calls == 0)
+        ensures this->core_->state == ST_REJECTED ==> (g_k_rej == 1 && g_rej_calls == 1 && g_res_calls == 0)
+        ensures this->core_->state == ST_PENDING ==> (g_res_calls == 0 && g_rej_calls == 0 && vs_exc == 0)
+        # it is remembered exactly once (behind the ones already attached), so that a later settlement reaches it once
+        ensures vs_exc == 0 ==> (g_pushed == 1 && this->core_->requests.n == OLD(this->core_->requests.n) + 1)
+        ensures vs_exc != 0 ==> g_pushed == 0
+        # the promise itself is not settled by then(); the derived promise starts pending; the lock is released
+        ensures this->core_->state == OLD(this->core_->state) && this->core_->exc == OLD(this->core_->exc) && !this->core_->mtx.held
+        ensures vs_exc == 0 ==> (RET.core_ == &vs_tmp_core && vs_tmp_core.state == ST_PENDING && vs_tmp_core.requests.n == 0)"""},
+]
+
+CT = 'AddOne, Pistache::Async::Private::Throw, int (int)'
+CONT2_PRE = """requires FRESH(this, sizeof(*this)) && FRESH(core, sizeof(*core)) && FRESH(*core, sizeof(**core)) && FRESH(this->vs_base_Continuable.chain_, sizeof(*this->vs_base_Continuable.chain_))
+        requires CORE_OK(*core) && CORE_OK(this->vs_base_Continuable.chain_) && g_exp_core == this->vs_base_Continuable.chain_ && GHOST0 && g_user_calls == 0 && !g_type_void
+        requires this->vs_base_Continuable.chain_->requests.n == 0 || g_k < this->vs_base_Continuable.chain_->requests.n"""
+CH = 'this->vs_base_Continuable.chain_'
+FUNCTIONS += [
+    {'q': 'Pistache::Async::Private::impl::Continuation::finishResolve', 'sig_exact': 'void (int &&) const', 'c': 'Continuation_AddOne_finishResolve',
+     'contract': """requires FRESH(this, sizeof(*this)) && FRESH(ret, sizeof(*ret)) && FRESH(%(ch)s, sizeof(*%(ch)s)) && CORE_OK(%(ch)s) && g_exp_core == %(ch)s && GHOST0 && !g_type_void
+        requires %(ch)s->requests.n == 0 || g_k < %(ch)s->requests.n
+        assigns """ % {'ch': CH} + GH + """, %(ch)s->state, %(ch)s->allocated
+        # the value a continuation returns fulfils the derived promise: stored once, then handed to every continuation attached to it once
+        ensures vs_exc == 0 ==> (%(ch)s->state == ST_FULFILLED && g_constructs == 1 && g_res_calls == %(ch)s->requests.n && (%(ch)s->requests.n > 0 ==> g_k_res == 1))
+        ensures g_res_calls > 0 ==> %(ch)s->state == ST_FULFILLED
+        ensures g_rej_calls == 0 && g_k_res <= 1 && g_constructs <= 1 && g_res_calls <= %(ch)s->requests.n""" % {'ch': CH},
+     'loops': ["""
+        assigns $BEGIN, vs_exc, g_k_res, g_res_calls, vs_req_slot
+        invariant $BEGIN <= $END && $END == %(ch)s->requests.n && vs_exc == 0 && g_res_calls == $BEGIN && g_k_res == ((g_k < $BEGIN) ? 1 : 0) && %(ch)s->state == ST_FULFILLED && g_constructs == 1
+        decreases $END - $BEGIN""" % {'ch': CH}]},
+    {'q': 'Pistache::Async::Private::impl::Continuation::doResolve', 'class_targ': 'Pistache::Async::VerifInst::AddOne', 'c': 'Continuation_AddOne_doResolve',
+     'stubs': {'Pistache::Async::detail::tryMove': {'expr': '(*vs_trymove_$VCAT(&($0)))'}},
+     'contract': CONT2_PRE + """
+        requires (*core)->state == ST_FULFILLED
+        assigns """ + GH + """, g_user_calls, g_user_arg, g_user_ret, %(ch)s->state, %(ch)s->allocated
+        # C11: the fulfilment continuation runs exactly once per doResolve, with the value the promise was fulfilled with; the stored value
+        # stays in the core (other continuations of the same promise are handed it too)
+        ensures g_user_calls == 1 && g_user_arg == g_value && g_value == OLD(g_value)
+        ensures vs_exc == 0 ==> (%(ch)s->state == ST_FULFILLED && g_res_calls == %(ch)s->requests.n)
+        ensures g_rej_calls == 0 && g_k_res <= 1""" % {'ch': CH}},
+    {'q': 'Pistache::Async::Private::impl::Continuation::doReject', 'class_targ': 'Pistache::Async::VerifInst::AddOne', 'c': 'Continuation_AddOne_doReject',
+     # with Async::Throw as the handler the forwarding loop behind reject_() is never reached (the handler always raises): the only
+     # reachable exit is the exception exit, so reachability is witnessed by a marker at the function's entry
+     'prologue': 'VS_REACH(Continuation_AddOne_doReject_entry_0);', 'dead_ok': ['for (const auto& req : this->chain_->requests)', '}', 'template <typename Ret>', '{'],
+     'contract': CONT2_PRE + """
+        assigns """ + GH + """, g_rethrown_exc
+        # with the rethrow handler a rejection never runs the fulfilment continuation; it leaves as the rethrow marker carrying the SAME
+        # exception (Continuable::reject then settles the derived promise with it)
+        ensures vs_exc == VS_EXC_RETHROW && g_rethrown_exc == (*core)->exc && g_user_calls == 0 && g_res_calls == 0 && g_rej_calls == 0""",
+     'loops': ["""
+        assigns $BEGIN, vs_exc, g_k_rej, g_rej_calls, vs_req_slot
+        invariant 0
+        decreases $END - $BEGIN"""]},
+]
 PROOFS = [
     {'name': 'Resolver_call_value', 'enforce': 'Resolver_call_int', 'loops': 'contracts', 'props': ['C11']},
     {'name': 'Resolver_call_void', 'enforce': 'Resolver_call_void', 'loops': 'contracts', 'props': ['C11']},
@@ -384,5 +456,9 @@ PROOFS = [
     {'name': 'Continuable_resolve', 'enforce': 'Continuable_int_resolve', 'props': ['C11']},
     {'name': 'Continuable_reject', 'enforce': 'Continuable_int_reject', 'loops': 'contracts', 'props': ['C11']},
     {'name': 'Throw_call', 'enforce': 'Throw_call', 'props': ['C11']},
+    {'name': 'Promise_then', 'enforce': 'Promise_int_then_AddOne', 'props': ['C11']},
+    {'name': 'Continuation_finishResolve', 'enforce': 'Continuation_AddOne_finishResolve', 'loops': 'contracts', 'props': ['C11']},
+    {'name': 'Continuation_doResolve', 'enforce': 'Continuation_AddOne_doResolve', 'replace': ['Continuation_AddOne_finishResolve'], 'props': ['C11']},
+    {'name': 'Continuation_doReject', 'enforce': 'Continuation_AddOne_doReject', 'replace': ['Throw_call'], 'loops': 'contracts', 'props': ['C11']},
     {'name': 'Any_reject', 'enforce': 'Pistache_Async_Impl_Any_reject', 'replace': ['Rejection_call_eptr'], 'props': ['C11']},
 ]
